@@ -152,7 +152,7 @@ def _exact_nearest(vs, closed, p):
     hs = [_hit(p, a, b) for a, b in _segs(vs, closed)]
     best = min(range(len(hs)), key=lambda k: (hs[k][0], k))
     d2, t, c = hs[best]
-    mag = max([1] + [abs(x) for v in vs for x in v] + [abs(x) for x in p])
+    mag = max([Fr(0)] + [abs(x) for v in vs for x in v] + [abs(x) for x in p])
     well = all(h[0] > d2 * (1 + Fr(1, 10 ** 5)) + Fr(1, 10 ** 10) * mag * mag or h[2] == c for h in hs)
     return well, best, t, c, d2
 
@@ -160,6 +160,9 @@ def _exact_nearest(vs, closed, p):
 POW2_VECS = ([[s * m if j == ax else 0.0 for j in range(3)] for ax in range(3) for s in (1, -1) for m in (0.5, 1.0, 2.0, 4.0)]
              + [[sx * m if j == a1 else (sy * m if j == a2 else 0.0) for j in range(3)]
                 for (a1, a2) in ((0, 1), (1, 2), (0, 2)) for sx in (1, -1) for sy in (1, -1) for m in (0.5, 1.0, 2.0)])
+
+
+UNIT_VECS = [v for v in POW2_VECS if max(abs(x) for x in v) == 1.0]
 
 
 def _flags(rng):
@@ -218,7 +221,8 @@ def gen_cases(rng, n, tier):
     cases = []
     while len(cases) < n:
         u = rng.random()
-        sc = 1.0 if rng.random() < 0.5 else 2.0 ** (rng.randint(-10, 10) if tier != "thorough" else rng.randint(-30, 30))
+        r_sc = rng.random()
+        sc = 1.0 if r_sc < 0.45 else 2.0 ** (rng.randint(-10, 10) if r_sc < 0.8 else rng.randint(-30, 30))
         if u < 0.30:
             # exact stream: everything (t, closest point, squared distance) is exact in binary64
             k = rng.randint(1, 8)
@@ -234,6 +238,20 @@ def gen_cases(rng, n, tier):
             qs = [grid_vec(rng, -4, 4, 2) for _ in range(1 if single else rng.randint(0, 4))]
             if qs and rng.random() < 0.3:
                 qs[0] = list(rng.choice(pts))               # exactly a vertex
+            if rng.random() < 0.3:
+                # a very short jog (length 1e-5 .. 1e-4) between unit-size neighbours, queried right next to it;
+                # all coordinates stay multiples of 2^-19 below 8, so the arithmetic is still exact
+                j = rng.randrange(len(pts))
+                jog = [x * 2.0 ** -rng.choice([14, 15, 16]) for x in rng.choice(UNIT_VECS)]
+                end = [a + b for a, b in zip(pts[j], jog)]
+                pts = pts[:j + 1] + [end] + [[a + b for a, b in zip(p, jog)] for p in pts[j + 1:]]
+                t = rng.choice([0.25, 0.5, 0.75, 1.0, 0.5])
+                off = [rng.randint(-2, 2) * 2.0 ** -18 for _ in range(3)]
+                near_jog = [pts[j][i] + t * jog[i] + off[i] for i in range(3)]
+                qs = ([near_jog] if single or not qs else [near_jog] + qs[1:])
+                cases.append({"kind": "nearest_tiny_segment", "v": [[x * sc for x in p] for p in pts], "closed": closed,
+                              "points": [[x * sc for x in p] for p in qs], "single": single, "flags": _flags(rng)})
+                continue
             cases.append({"kind": "nearest_exact", "v": [[x * sc for x in p] for p in pts], "closed": closed,
                           "points": [[x * sc for x in p] for p in qs], "single": single, "flags": _flags(rng)})
         elif u < 0.52:
@@ -264,6 +282,11 @@ def gen_cases(rng, n, tier):
                 if rng.random() < 0.25:
                     t = rng.choice([0.0, 0.25, 0.5, 1.0])
                     p = [a[j] + t * v[j] for j in range(3)]     # exactly on the segment
+                if r >= 0.2 and rng.random() < 0.25:
+                    # very short segment (1e-5 .. 1e-4 long) at unit-size coordinates, query next to it
+                    v = [x * 2.0 ** -rng.choice([14, 15, 16]) for x in v]
+                    t = rng.choice([-0.5, 0.25, 0.5, 0.75, 1.0, 1.5])
+                    p = [a[j] + t * v[j] + rng.randint(-2, 2) * 2.0 ** -18 for j in range(3)]
                 ps.append(p), sa.append(a), sv.append(v)
             eps = rng.choice([0.0, 0.5, 1.0, 2.0, 1e-8, 0.25])
             cases.append({"kind": "closest_pairs", "exact": exact, "points": [[x * sc for x in p] for p in ps],
@@ -412,7 +435,7 @@ ONLY_T = "ret_t_values was requested but no t values were returned (bare point a
 
 
 def _close(x, y, mag, rel=Fr(1, 10 ** 8)):
-    return abs(Fr(float(x)) - y) <= rel * max(1, abs(y), mag)
+    return abs(Fr(float(x)) - y) <= rel * max(abs(y), mag)
 
 
 def _col_of(obs, kind, nth=0):
@@ -441,7 +464,7 @@ def _oracle_nearest(c, o):
     want_shapes = [[3], [], [], []] if c["single"] else [[k, 3], [k], [k], [k]]
     if [x["shape"] for x in full["tuple"]] != want_shapes:
         return "nearest(all flags): result shapes %r, expected %r" % ([x["shape"] for x in full["tuple"]], want_shapes)
-    mag = max([1] + [abs(x) for v in vs for x in v] + [abs(x) for p in c["points"] for x in _F3(p)])
+    mag = max([Fr(0)] + [abs(x) for v in vs for x in v] + [abs(x) for p in c["points"] for x in _F3(p)])
     for r in range(k):
         p = _F3(c["points"][r])
         if not (0 <= I[r] < len(segs)):
@@ -455,7 +478,7 @@ def _oracle_nearest(c, o):
             if not _close(P[r][j], a[j] + t * (b[j] - a[j]), mag):
                 return "query %d: point is not start + t * vector of segment %d" % (r, I[r])
         d2 = _dot(_sub(p, pt), _sub(p, pt))
-        if abs(Fr(D[r]) ** 2 - d2) > Fr(1, 10 ** 8) * max(1, d2, mag * mag):
+        if abs(Fr(D[r]) ** 2 - d2) > Fr(1, 10 ** 8) * max(d2, mag * mag):
             return "query %d: distance %r is not |query - point|" % (r, D[r])
         best = min(_hit(p, x, y)[0] for x, y in segs)
         if d2 > best + Fr(1, 10 ** 8) * max(best, mag * mag * Fr(1, 10 ** 4)):
@@ -512,7 +535,7 @@ def _oracle_sliced(c, o):
         return "sliced_at_points returned a closed polyline"
     if not o["args_unchanged"]:
         return "polyline was modified"
-    mag = max([1] + [abs(x) for p in exp for x in p])
+    mag = max([Fr(0)] + [abs(x) for p in exp for x in p])
     if len(o["v"]) != len(exp):
         return "sub-path has %d vertices, expected %d (nearest(a), vertices in between, nearest(b))" % (len(o["v"]), len(exp))
     for r, (got, want) in enumerate(zip(o["v"], exp)):
@@ -558,7 +581,7 @@ def oracle(c, o):
         eps2 = Fr(float(c["eps"])) ** 2
         for r in range(k):
             p, a, v = _F3(c["points"][r]), _F3(c["starts"][r]), _F3(c["vectors"][r])
-            mag = max([1] + [abs(x) for x in p + a + v])
+            mag = max([Fr(0)] + [abs(x) for x in p + a + v])
             t = Fr(o["ts"][r])
             if not (0 <= t <= 1):
                 return "row %d: t=%r outside [0,1]" % (r, o["ts"][r])
